@@ -185,8 +185,14 @@ impl Report {
         let mut g = self.inner.lock().unwrap();
         g.evaluations += l.evaluations;
         l.evaluations = 0;
-        for d in l.distinct.drain() {
-            g.distinct.insert(d);
+        // the distinct-case set is capped (memory): beyond the cap the reported number is a lower bound
+        const DISTINCT_CAP: usize = 60_000_000;
+        if g.distinct.len() < DISTINCT_CAP {
+            for d in l.distinct.drain() {
+                g.distinct.insert(d);
+            }
+        } else {
+            l.distinct.clear();
         }
         for (k, v) in l.features.iter_mut() {
             *g.features.entry(k.clone()).or_insert(0) += *v;
